@@ -2,14 +2,16 @@ pub mod asyncio;
 pub mod keys;
 pub mod probe;
 pub mod regs;
+pub mod sigs;
 pub mod threads;
+pub mod transient;
 pub mod worlds;
 
 use crate::explore::Report;
 use crate::Args;
 
 pub fn names() -> Vec<&'static str> {
-    vec!["keys", "reuse", "modes", "batch", "removal", "disable", "reentrancy", "epoll", "exec-seq", "postaction", "lifecycle", "faults", "idle", "crash-probe", "async-io", "pa-table", "timers", "wait", "ping-seq", "chan-seq", "ping-mt", "chan-mt", "exec-mt", "wakeup", "run", "block_on"]
+    vec!["keys", "reuse", "modes", "batch", "removal", "disable", "reentrancy", "epoll", "exec-seq", "postaction", "lifecycle", "faults", "idle", "signals", "transient", "crash-probe", "async-io", "pa-table", "timers", "wait", "ping-seq", "chan-seq", "ping-mt", "chan-mt", "exec-mt", "wakeup", "run", "block_on"]
 }
 
 pub fn dispatch(args: &Args) -> Option<Report> {
@@ -17,6 +19,8 @@ pub fn dispatch(args: &Args) -> Option<Report> {
         "keys" => Some(keys::run(&args.tier, args.shard, args.seed)),
         "async-io" => asyncio::run(args),
         "crash-probe" => Some(probe::run()),
+        "transient" => transient::run(args),
+        "signals" => sigs::run(args),
         "pa-table" => Some(regs::pa_table()),
         d if regs::cfg_for(d, &args.tier).is_some() => regs::run(args),
         d if threads::is_driver(d) => threads::run(args),
